@@ -86,6 +86,12 @@ type Prop struct {
 	// GenInWorker: the generator needs the real system too and also runs there.
 	Subprocess  bool
 	GenInWorker bool
+	// DeterministicScripts: every choice of a case is in its script (scheduling, faults, injections), so a
+	// difference between twin and implementation is a deterministic function of the script: a disagreement that two
+	// re-runs of the SAME script do not show is an event of the test infrastructure (an atomix call of the
+	// in-process test client timing out on a loaded machine) - counted in the result, not reported as a violation.
+	// Monitor failures are never filtered this way.
+	DeterministicScripts bool
 	// Protected lines are never dropped by the shrinker (set-up lines such as a reset).
 	Protected func(line string) bool
 	// FixedLayout: the monitor addresses lines by position, so the shrinker must not drop lines.
@@ -128,6 +134,7 @@ type Result struct {
 	Samples            []Case         `json:"samples"`
 	KnownHits          map[string]int `json:"known_hits"`
 	KnownReproduced    []string       `json:"known_reproduced"`
+	UnreproducedDisagreements int     `json:"unreproduced_disagreements"`
 	Violations         []Failure      `json:"violations"`
 	WallS              float64        `json:"wall_s"`
 }
@@ -550,6 +557,11 @@ func Run(p *Prop, opts Opts) (*Result, error) {
 			continue
 		}
 		if oc.disLine >= 0 && len(res.Violations) < 5 {
+			if p.DeterministicScripts && runCase(p, so, oc.c).disLine < 0 && runCase(p, so, oc.c).disLine < 0 {
+				res.UnreproducedDisagreements++
+				fmt.Printf("NOTE property=%s a disagreement at line %d of case %s did not reproduce in two re-runs of the same script (infrastructure event, not reported)\n", p.ID, oc.disLine, oc.c.Origin)
+				continue
+			}
 			min := shrink(p, oc.c, func(c Case) bool { return runCase(p, so, c).disLine >= 0 })
 			o2 := runCase(p, so, min)
 			if o2.disLine < 0 {
